@@ -144,7 +144,7 @@ type statedMonth struct {
 
 func r01_6(c *Ctx, r *Report) {
 	const rule = "R01.6"
-	r.rule(rule, "Both constructors of a lunar date read the month table the same way. On a checker-made table of fifteen consecutive months (29 and 30 days, a leap month among them, two lunar years) NewLunarFromSolar is followed by the evaluator (its search as a table over the iteration number, the list of months as a model of container/list, civil dates as (day number, second of the day) with the checker's own calendar; no library code runs) for the first, second and last day of every month (thorough tier: every day) at 00:00:00, 12:00:00 and 23:59:59: the year, month and day it stores are the stated month's year and month and the day's position in it, the time of day is the civil date's. NewLunar is followed for the same days: the civil date it stores is the first day of the stated month moved on by day-1, with the given time of day.")
+	r.rule(rule, "Both constructors of a lunar date read the month table the same way. On a checker-made table of fifteen consecutive months (29 and 30 days, a leap month among them, two lunar years) NewLunarFromSolar is followed by the evaluator (its search as a table over the iteration number, the list of months as a model of container/list, civil dates as (day number, second of the day) with the checker's own calendar; no library code runs) for the first, second and last day of every month (thorough tier: every day) at 00:00:00, 12:34:56 and 23:59:58 (hour, minute and second all different, so that a swapped copy shows): the year, month and day it stores are the stated month's year and month and the day's position in it, the time of day is the civil date's. NewLunar is followed for the same days: it stores each date field from the parameter of the same meaning, and the civil date it stores is the first day of the stated month moved on by day-1, with the given time of day. (This rule replaces the shape-matching rules R01.4, inverse day offsets, and R01.5, field copies, which it subsumes.)")
 	// the table: months of lunar 2019 (from its 11th month) and 2020 with a leap 4th month
 	var months []statedMonth
 	first := civilDayNo(2019, 11, 26)
@@ -212,7 +212,7 @@ func r01_6(c *Ctx, r *Report) {
 		}
 		return got
 	}
-	times := []int64{0, 12 * 3600, 23*3600 + 59*60 + 59}
+	times := []int64{0, 12*3600 + 34*60 + 56, 23*3600 + 59*60 + 58} // hour, minute and second all different in two of them
 	daysOf := func(m statedMonth) []int64 {
 		if c.Tier != "thorough" {
 			return []int64{1, 2, m.days}
@@ -261,9 +261,11 @@ func r01_6(c *Ctx, r *Report) {
 					}
 					ev := &evaluator{leaf: leaf, inline: inlineLibrary, counted: 64}
 					lm = newListModel(ev)
+					var all []interface{}
 					for j := range months {
-						lm.elems["list@months"] = append(lm.elems["list@months"], absPtr{fmt.Sprintf("month %d", j), false})
+						all = append(all, absPtr{fmt.Sprintf("month %d", j), false})
 					}
+					lm.fill("list@months", all...)
 					ev.visit = lm.visit
 					got := watch(ev)
 					_, outcome := ev.run(fn, nil, nil, nil, nil)
